@@ -873,7 +873,12 @@ class GenMatch(Gen):
         n_subj = 1 if self.chance(0.8) else 2
         subj = [self.subject(sc, d) for _ in range(n_subj)]
         arms = []
-        body_kind = self.pick(["int", "str"])
+        body_kind = self.pick(["int", "str", "pair"])
+        def body_value(scope):
+            if body_kind == "pair":
+                # a multi-value arm body (printed with or without parentheses, inline or as a block)
+                return ("tuple", [self.expr("str", scope, d + 2), self.expr("int", scope, d + 2)])
+            return self.expr(body_kind, scope, d + 2)
         for a in range(self.rng.randint(1, 4)):
             alts = []
             names_all = None
@@ -908,10 +913,10 @@ class GenMatch(Gen):
             binds = [v for v in inner.vars.values() if v.name.startswith("p") and v.name not in sc.vars]
             if binds:
                 body.append(("print", [("var", v.name) for v in binds[:3]]))
-            body.append(self.maybe_trace(self.expr(body_kind, inner, d + 2)))
+            body.append(self.maybe_trace(body_value(inner)) if body_kind != "pair" else body_value(inner))
             arms.append((alts, guard, body))
         if self.chance(0.5) or not arms:
-            arms.append((None, None, [self.expr(body_kind, sc, d + 2)]))
+            arms.append((None, None, [body_value(sc)]))
         self.trace_id += 1
         subjects = [("trace", self.trace_id + i * 1000, e) for i, (e, sh) in enumerate(subj)]
         return ("match", subjects, arms)
@@ -973,8 +978,30 @@ class GenMatch(Gen):
             out.append(("for", targets, ("list", rows) if self.chance(0.5) else ("tuple", rows), body))
         return out
 
+    def for_ignored(self, sc, d):
+        """for _ in SOURCE: the body runs once per element whatever the source yields (values or key / value pairs)."""
+        cnt = self.fresh("cnt")
+        sc.vars[cnt] = Var(cnt, "int", protected=True)
+        k = self.rng.randint(0, 4)
+        r = self.rng.random()
+        if r < 0.4:
+            src = ("map", [(key, ("int", i)) for i, key in enumerate(self.rng.sample(["a", "b", "c", "d"], k))])
+        elif r < 0.55:
+            src = ("list", [("int", i) for i in range(k)])
+        elif r < 0.7:
+            src = ("tuple", [("tuple", [("int", i), ("int", i)]) for i in range(k)])
+        elif r < 0.85:
+            src = ("range", ("int", 0), ("int", k), False)
+        else:
+            src = ("str", [self.pick(["xy", "abc", "é日", ""])])
+        return [("assign", ("var", cnt), ("int", 0)),
+                ("for", [("ignore",)], src, [("opassign", "+", ("var", cnt), ("int", 1))]),
+                ("print", [("var", cnt)])]
+
     def stmt(self, sc, d):
         r = self.rng.random()
+        if r < 0.05 and self.loop_depth == 0:
+            return self.for_ignored(sc, d)
         if r < 0.35 and d <= 2:
             m = self.match_expr(sc, d)
             if self.chance(0.5):
